@@ -1100,6 +1100,11 @@ mod convert {
         /// If this state occurred after a `SetAddress`, `self.address` is still the
         /// address that was set.
         ConvertRow,
+        /// Return the end of sequence in `self.from_row`.
+        ///
+        /// This state occurs after returning an address that was set directly
+        /// before the end of the sequence.
+        EndSequence,
     }
 
     /// The state for the conversion of a line number program.
@@ -1369,6 +1374,10 @@ mod convert {
                     self.state = ConvertLineState::ReadRow;
                     return Ok(Some(ConvertLineRow::Row(self.convert_row()?)));
                 }
+                ConvertLineState::EndSequence => {
+                    self.state = ConvertLineState::ReadRow;
+                    return Ok(Some(ConvertLineRow::EndSequence(self.from_row.address())));
+                }
             }
             let mut tombstone = false;
             self.address = None;
@@ -1427,6 +1436,11 @@ mod convert {
                 }
                 if self.from_row.end_sequence() {
                     self.check_address_offset(self.from_row.address())?;
+                    if let Some(address) = self.address.take() {
+                        // An address was set directly before the end of the sequence.
+                        self.state = ConvertLineState::EndSequence;
+                        return Ok(Some(ConvertLineRow::SetAddress(address)));
+                    }
                     return Ok(Some(ConvertLineRow::EndSequence(self.from_row.address())));
                 }
                 if let Some(address) = self.address.take() {
@@ -1507,7 +1521,23 @@ mod convert {
                     // Leave this state even if the row cannot be converted, so that
                     // repeated calls make progress.
                     self.state = ConvertLineState::ReadRow;
+                    if self.from_row.end_sequence() {
+                        // The address was set directly before the end of the sequence.
+                        return Ok(Some(ConvertLineSequence {
+                            start,
+                            end: ConvertLineSequenceEnd::Length(self.from_row.address()),
+                            rows,
+                        }));
+                    }
                     rows.push(self.convert_row()?);
+                }
+                ConvertLineState::EndSequence => {
+                    self.state = ConvertLineState::ReadRow;
+                    return Ok(Some(ConvertLineSequence {
+                        start,
+                        end: ConvertLineSequenceEnd::Length(self.from_row.address()),
+                        rows,
+                    }));
                 }
             }
             while let Some(row) = self.read_row()? {
